@@ -104,6 +104,7 @@ Proof.
   set (s := n * unit_seconds u) in *.
   assert (Hs : 0 < s) by (unfold s; nia).
   unfold rewritten_value, rewrite_texpr. fold s. rewrite interval_small by (assumption || lia). fold s.
+  replace (o mod MICROS =? 0) with true by (symmetry; apply Z.eqb_eq; exact Ho). cbn [negb].
   destruct (s =? 0) eqn:E; [lia|].
   cbn [eval_emitted eval_orig]. fold s.
   replace (match u with UMonth => None | _ => Some (time_bucket (s * MICROS) t o) end)
@@ -143,7 +144,8 @@ Lemma month_unrewritten : forall n o, rewrite_texpr (TB2 n UMonth) = EUnch /\ re
                                       /\ rewrite_texpr (DT UMonth) = EUnch.
 Proof.
   intros n o. unfold rewrite_texpr, interval_to_seconds. cbn [unit_seconds].
-  rewrite Z.mul_0_r. destruct (2 ^ 63 <=? n); repeat split; reflexivity.
+  rewrite Z.mul_0_r. destruct (2 ^ 63 <=? n); repeat split; try reflexivity;
+    destruct (negb (o mod MICROS =? 0)); reflexivity.
 Qed.
 
 Lemma some_inj : forall (x y : Z), Some x = Some y -> x = y.
@@ -201,25 +203,28 @@ Proof.
   exact H.
 Qed.
 
-(* an origin with a fractional second is truncated by originTime.Unix(): different on every row *)
-Lemma origin_fraction_refuted : forall n u o t,
+(* an origin with a fractional second is no longer rewritten (originTime.Nanosecond() != 0) *)
+Lemma origin_fraction_unrewritten : forall n u o, o mod MICROS <> 0 -> rewrite_texpr (TB3 n u o) = EUnch.
+Proof.
+  intros n u o H. unfold rewrite_texpr.
+  destruct (o mod MICROS =? 0) eqn:E; [apply Z.eqb_eq in E; contradiction|]. reflexivity.
+Qed.
+
+(* what the old code computed for such an origin: E3 with the truncated origin - wrong on every row *)
+Lemma origin_fraction_would_differ : forall n u o t,
   u <> UMonth -> 0 < n -> n * unit_seconds u < 2 ^ 63 -> o mod MICROS <> 0 ->
-  rewritten_value (TB3 n u o) t <> eval_orig (TB3 n u o) t.
+  eval_emitted (E3 (o / MICROS) (o / MICROS) (n * unit_seconds u) (n * unit_seconds u)) (TB3 n u o) t <> eval_orig (TB3 n u o) t.
 Proof.
   intros n u o t Hu Hn Hb Hfr Heq.
   pose proof (unit_seconds_pos u Hu) as Hus.
   set (s := n * unit_seconds u) in *.
   assert (Hs : 0 < s) by (unfold s; nia).
-  unfold rewritten_value, rewrite_texpr in Heq. fold s in Heq.
-  rewrite interval_small in Heq by (assumption || lia). fold s in Heq.
-  destruct (s =? 0) eqn:E; [lia|].
   cbn [eval_emitted eval_orig] in Heq. fold s in Heq.
   replace (match u with UMonth => None | _ => Some (time_bucket (s * MICROS) t o) end)
     with (Some (time_bucket (s * MICROS) t o)) in Heq by (destruct u; congruence).
   apply some_inj in Heq. unfold to_timestamp, time_bucket in Heq.
   set (q := idiv (epoch_bigint t - o / MICROS) s) in *.
   set (k := (t - o) / (s * MICROS)) in *.
-  (* o = (o / M) * M + o mod M, 0 < o mod M < M <= s * M *)
   assert (Hmod : 0 < o mod MICROS < MICROS) by (pose proof (Z.mod_pos_bound o MICROS); unfold MICROS in *; lia).
   assert (Hdec : o = MICROS * (o / MICROS) + o mod MICROS) by (apply Z.div_mod; unfold MICROS; lia).
   assert (Hk : o mod MICROS = (q - k) * s * MICROS) by nia.
@@ -655,51 +660,65 @@ Proof.
   rewrite <- (rev_involutive l). rewrite E. reflexivity.
 Qed.
 
-Lemma opt1_sound : forall r cl, quote_trigger cl = false -> eval_clause r (opt1 cl) = eval_clause r cl.
+Lemma opt1_sound : forall r cl, eval_clause r (opt1 cl) = eval_clause r cl.
 Proof.
-  intros r cl Hq. unfold opt1.
+  intros r cl. unfold opt1.
   destruct cl as [|ch chains]; [reflexivity|].
   destruct ch as [|f1 [|f2 rest]]; try reflexivity.
-  cbn [quote_trigger] in Hq.
-  destruct (is_plain_like f1); [|reflexivity].
-  destruct (is_plain_nonempty f2).
-  - unfold eval_clause. cbn [fold_right]. f_equal.
-    unfold eval_chain. cbn [fold_right].
-    rewrite !and3_assoc. f_equal. apply and3_comm.
-  - destruct (quote_ne f2); [discriminate|reflexivity].
-Qed.
-
-Lemma opt2_single_sound : forall r ch, eval_clause r (opt2 [ch]) = eval_clause r [ch].
-Proof.
-  intros r ch. unfold opt2. cbn [split_last rev app].
-  destruct (split_last ch) as [[init f]|] eqn:E; [|reflexivity].
-  apply split_last_spec in E. subst ch.
-  destruct init as [|g init]; [reflexivity|].
-  match goal with |- context [if ?b then _ else _] => destruct b end; [|reflexivity].
+  destruct (is_plain_like f1 && is_plain_nonempty f2); [|reflexivity].
   unfold eval_clause. cbn [fold_right]. f_equal.
-  rewrite eval_chain_app.
-  change (eval_chain r (f :: g :: init)) with (and3 (eval_factor r f) (eval_chain r (g :: init))).
-  change (eval_chain r [f]) with (and3 (eval_factor r f) (Some true)).
-  rewrite and3_true_r. apply and3_comm.
+  unfold eval_chain. cbn [fold_right].
+  rewrite !and3_assoc. f_equal. apply and3_comm.
 Qed.
 
-Lemma opt1_single : forall ch, exists ch', opt1 [ch] = [ch'].
+(* the text of two chains joined by OR contains the word OR *)
+Lemma word_or_from_sep : forall x prev y, word_or_from prev (x ++ B " OR " ++ y) = true.
 Proof.
-  intros ch. unfold opt1. destruct ch as [|f1 [|f2 rest]]; try (eexists; reflexivity).
-  destruct (is_plain_like f1); [|eexists; reflexivity].
-  destruct (is_plain_nonempty f2); [eexists; reflexivity|].
-  destruct (quote_ne f2) as [[c2 l]|]; eexists; reflexivity.
+  induction x as [|c x IH]; intros prev y.
+  - change (B " OR ") with [32; 79; 82; 32]%N. cbn [app word_or_from].
+    change (is_O 32) with false. rewrite andb_false_r. cbn [orb].
+    change (is_word 32) with false. cbn [negb andb].
+    change (is_O 79) with true. change (is_R 82) with true. change (is_word 32) with false. reflexivity.
+  - cbn [app word_or_from]. rewrite IH. apply orb_true_r.
 Qed.
 
-(* a WHERE clause without a top-level OR: the optimiser keeps the Kleene value on every row *)
-Lemma like_no_or_sound : forall r ch tail, quote_trigger [ch] = false ->
-  eval_clause r (optimize [ch] tail) = eval_clause r [ch].
+Lemma print_clause_cons2 : forall ch c2 cl,
+  print_clause (ch :: c2 :: cl) = print_chain ch ++ B " OR " ++ print_clause (c2 :: cl).
+Proof. reflexivity. Qed.
+
+Lemma word_or_multi : forall c1 cs init, word_or (print_clause ((c1 :: cs) ++ [init])) = true.
 Proof.
-  intros r ch tail Hq. unfold optimize.
-  destruct (containsb (B "LIKE") (upperb (print_query [ch] tail))); [|reflexivity].
-  destruct (opt1_single ch) as [ch' Hch]. rewrite Hch. rewrite opt2_single_sound.
-  rewrite <- Hch. apply opt1_sound. exact Hq.
+  intros c1 cs init. cbn [app].
+  destruct (cs ++ [init]) as [|c2 rest] eqn:E; [destruct cs; discriminate|].
+  rewrite print_clause_cons2. apply word_or_from_sep.
 Qed.
 
-Lemma keeps_no_or : forall r ch tail, quote_trigger [ch] = false -> keeps r (optimize [ch] tail) = keeps r [ch].
-Proof. intros. unfold keeps. rewrite like_no_or_sound by assumption. reflexivity. Qed.
+Lemma opt2_sound : forall r cl, eval_clause r (opt2 cl) = eval_clause r cl.
+Proof.
+  intros r cl. unfold opt2.
+  destruct (split_last cl) as [[chains lastch]|] eqn:E1; [|reflexivity].
+  destruct (split_last lastch) as [[init f]|] eqn:E2; [|reflexivity].
+  destruct init as [|g init]; [reflexivity|].
+  destruct chains as [|c1 cs].
+  - (* a single chain: the trailing check moves to the front of that chain *)
+    match goal with |- context [if ?b then _ else _] => destruct b end; [|reflexivity].
+    apply split_last_spec in E1. apply split_last_spec in E2. cbn [app] in E1. subst cl lastch.
+    unfold eval_clause. cbn [fold_right]. f_equal.
+    rewrite eval_chain_app.
+    change (eval_chain r (f :: g :: init)) with (and3 (eval_factor r f) (eval_chain r (g :: init))).
+    change (eval_chain r [f]) with (and3 (eval_factor r f) (Some true)).
+    rewrite and3_true_r. apply and3_comm.
+  - (* several chains: the text before the check contains " OR " and the guard leaves it alone *)
+    rewrite word_or_multi. cbn [negb]. rewrite andb_false_r. cbn [andb]. reflexivity.
+Qed.
+
+(* OptimizeLikePatterns keeps the Kleene value of EVERY clause on every row *)
+Lemma optimize_sound : forall r cl tail, eval_clause r (optimize cl tail) = eval_clause r cl.
+Proof.
+  intros r cl tail. unfold optimize.
+  destruct (containsb (B "LIKE") (upperb (print_query cl tail))); [|reflexivity].
+  rewrite opt2_sound. apply opt1_sound.
+Qed.
+
+Lemma keeps_sound : forall r cl tail, keeps r (optimize cl tail) = keeps r cl.
+Proof. intros. unfold keeps. rewrite optimize_sound. reflexivity. Qed.
